@@ -53,8 +53,8 @@ STRINGS UNDER MULTIVALUED NAMES (step op ``mvstr`` of the ``sub`` kind, M.mvstr)
 ``BuildInfo`` / ``Sources`` / ``Release`` / ``PdiffIndex`` a STRING (not a record list) is assigned to a field the class
 treats as multivalued - there assignment-time validation is skipped and the class relies on its dump-time formatter -
 and at least one more field follows it.  Three outcomes: the assignment raises (any exception; the paragraph must be
-unchanged - M.mvstr.unchanged / K), ``dump()`` raises (any exception), or ``dump()`` returns text.  The first two are
-the library's choice and only counted.  Text is re-read through the class's own ``iter_paragraphs`` AND through
+unchanged - M.mvstr.unchanged / K), ``dump()`` raises (any exception; ``dump(fd)`` is then tried once and judged if it
+completes), or ``dump()`` returns text.  The first two are the library's choice and only counted.  Text is re-read through the class's own ``iter_paragraphs`` AND through
 ``Deb822.iter_paragraphs`` (str always; bytes, LF-only line/stream/file forms and the constructors by rotation;
 ``whitespace-separates-paragraphs=False`` always, the default setting when neither the string nor any text value of
 the paragraph has a blank continuation line) and must give ONE paragraph with exactly the names the paragraph holds,
@@ -180,7 +180,8 @@ RULE = ('Values: (1) ENUMERATED - every concatenation of <= 5 (quick) / <= 7 (th
         'unchanged paragraph after a refused assignment) / dump returned text -> re-read: str through '
         'cls.iter_paragraphs and through Deb822.iter_paragraphs always, bytes through the class for every 2nd value, plus '
         'LF-only forms and constructor forms as in (5) (blank continuation: 5 more pairs; CR: 1..3; half of the rest: 1; '
-        'a --replay: all).  The string payloads of the prime steps of (5) are judged the same way.  NON-TRIVIAL: the '
+        'a --replay: all); when dump() raises, dump(fd) into a StringIO is tried and whatever it completes is re-read as '
+        'str / bytes.  The string payloads of the prime steps of (5) are judged the same way.  NON-TRIVIAL: the '
         'string contains a line boundary; distinct = distinct (class, name, string).')
 ASSUMPTIONS = [
     'vp.models.deb822value (30 lines) states the three defects of the property: value ends in LF; a line after the '
@@ -277,7 +278,9 @@ ASSUMPTIONS = [
     'demand; (vii) a re-read that raises counts as "does not give one paragraph" (as everywhere in this module); '
     '(viii) the floors of this class are on ATTEMPTS (cases, routes, classes, pairs, shapes, enumeration lengths); how '
     'many attempts end in text is the library\'s choice - conclusive() only checks that every attempt was classified and '
-    'that every text outcome was re-read at least through the class and through Deb822.',
+    'that every text outcome was re-read at least through the class and through Deb822; (ix) when dump() raises, the '
+    'other way of writing the paragraph out - dump(fd, text_mode=True) into a StringIO - is tried once: if it completes, the '
+    'text it wrote is judged the same way (str / bytes forms only), if it raises too nothing is demanded.',
 ]
 ANCHORS = ['debian.deb822:Deb822.validate_input',
            'debian.deb822:Deb822.__setitem__',
@@ -1811,10 +1814,23 @@ def judge_mv_object(ctx, o, clsname, name, v, assigned, what, sink, depth, sel, 
         ctx.count('mvs:outcome:dump-raised')
         ctx.count('mvs:dump-raised:' + type(e).__name__)
         ctx.count('mvs:dump-raised:via:' + tag)
-        return
-    ctx.count('mvs:outcome:dump-text')
-    ctx.count('mvs:dump-text:' + clsname)
-    ctx.count('mvs:dump-text:via:' + tag)
+        # the other way of writing a paragraph out: dump(fd).  If THAT completes, what it wrote is judged as well.
+        try:
+            fd = io.StringIO()
+            o.dump(fd, text_mode=True)
+            text = fd.getvalue()
+        except MonitorViolation:
+            raise
+        except Exception:
+            ctx.count('mvs:dump-to-file-object-raised-too')
+            return
+        ctx.count('mvs:dump-to-file-object-wrote-text-although-dump-raised')
+        what += ' [dump() raised %s; text written by dump(fd, text_mode=True)]' % type(e).__name__
+        depth = 'none'           # str / bytes forms only: the file forms would call dump(fd) in its other modes
+    else:
+        ctx.count('mvs:outcome:dump-text')
+        ctx.count('mvs:dump-text:' + clsname)
+        ctx.count('mvs:dump-text:via:' + tag)
     if model.defects(v):
         ctx.count('mvs:dump-text:value-with-stated-defect')       # e.g. normalised into records by the constructor
     keys = list(o)
@@ -1832,7 +1848,7 @@ def judge_mv_object(ctx, o, clsname, name, v, assigned, what, sink, depth, sel, 
     ctx.mon('M.mvstr')
     check_reread(ctx, o, v, None, what=what, depth=depth, sel=sel, values=values,
                  suffix='/string-under-multivalued-name', sub=clsname, sink=sink,
-                 followed=bool(keys) and keys[-1].lower() != name.lower(), mv=True)
+                 followed=bool(keys) and keys[-1].lower() != name.lower(), mv=True, text=text)
 
 
 def do_mvstr(ctx, st, idx, sink, depth):
@@ -2295,7 +2311,7 @@ def reread_once(src, is_iter, api, strict, cls=None):
 
 
 def check_reread(ctx, d, v, small, what='dump', depth='none', sel=0, values=None, suffix='', sub=None, sink=None,
-                 followed=False, mv=False):
+                 followed=False, mv=False, text=None):
     """M.reread: the accepted value's paragraph re-reads as ONE paragraph with the same names.
     values: all values of a PARSED paragraph (the blank-continuation guard of the default setting then looks at every
     one of them, and the re-reads are also counted as M.reread-parsed).
@@ -2305,9 +2321,11 @@ def check_reread(ctx, d, v, small, what='dump', depth='none', sel=0, values=None
     sink: called with (key, message) instead of ctx.violation (the subclass layer picks the witness itself).
     mv: v is a STRING the class accepted under one of its MULTIVALUED names and was willing to dump: always re-read as
     str through the class AND through plain Deb822 (+ bytes through the class for every 2nd value, + sub_plan());
-    counted as M.reread-mvstr."""
+    counted as M.reread-mvstr.
+    text: what the paragraph wrote, if the caller has it already."""
     keys = list(d)
-    text = d.dump()
+    if text is None:
+        text = d.dump()
     parsed = values is not None and sub is None
     if values is not None:
         blank = any(model.blank_continuation(x) for x in values)
